@@ -146,6 +146,8 @@ func runC10(c *core.Ctx) {
 	checkNilHeaderOffLoop(c, "R10.7")
 	c.Rule("R10.8", "what a handler or responder flushes reaches the socket: no buffered writer is made the sink of another buffered writer (bufio.NewWriter / (*bufio.Writer).Reset given a bufio.Writer) unless the inner one is flushed too - otherwise the next command's request sits in the inner buffer for ever and the client request that waits for its reply never terminates", 5)
 	checkNestedWriters(c, "R10.8")
+	c.Rule("R10.9", "every variable index into a fixed-size package-level table of the batching pool is kept below the table's size (shared with C13): a panic on a pool goroutine terminates the server process", 3)
+	checkFixedTableIndices(c, "R10.9")
 }
 
 // checkNestedWriters (R10.8): every construction or re-targeting of a bufio.Writer on the request path (backend
